@@ -19,6 +19,7 @@ makes the derived fetch again as soon as that fetch has returned) and is not re-
 | `SSt.settle`          | the boundaries' render effects have seen the current state (only a `<Transition>` keeps something from it: `phase`) |
 | `SOp`, `SSt.step`, `SProg.run` | a history: writes and completions, the executor running to idle after each |
 | `renderLoaded`        | the view with every boundary transparent and every leaf at the value its fetcher gives for the current signals |
+| `SV.lw sel`           | `move || { let g = gates[sel mod 4].clone(); Suspend::new(async move { g.wait().await.to_string() }) }`: a `Suspend` over a plain future that the closure picks by a signal (no `AsyncDerived` in between); gate `g` resolves to `g` once the harness has opened it (`SSt.openGate`).  What such a leaf shows while the gate it now selects is still closed depends on the polling order (it may or may not have shown a load that was superseded since): the DOM is OBSERVED only at idle points where every live `lw` leaf selects an open gate (`lwClosed = false`); there it shows that gate's value |
 | `SV.aw rid`           | `move || Suspend::new(async move { resource.await.to_string() })` (tachys/src/reactive_graph/suspense.rs) |
 
 The class (checked by the harness and the driver): resources read signals only; `aw` leaves sit below a
@@ -43,6 +44,7 @@ inductive SV where
   | sus (kid : SV)
   | tra (i : Nat) (kid : SV)
   | aw (rid : Nat)
+  | lw (sel : Expr)
   deriving Repr, Inhabited
 
 structure Res where
@@ -63,6 +65,8 @@ structure SSt where
   phase : List Nat := []
   view : Option SV := none
   disposed : Bool := false
+  /-- the four gates of the `lw` leaves: opened or not -/
+  gates : List Bool := [false, false, false, false]
   deriving Inhabited
 
 /-- from-scratch values of all nodes -/
@@ -102,6 +106,13 @@ def SSt.resolve (st : SSt) (rid : Nat) : SSt :=
         (if r.again then r.start st.env else { r with pending := false, last := some r.cap })
       else r }
 
+def gateIx (v : Int) : Nat := RView.forIndex v 4
+
+def SSt.gateOpen (st : SSt) (g : Nat) : Bool := st.gates.getD g false
+
+def SSt.openGate (st : SSt) (g : Nat) : SSt :=
+  { st with gates := (List.range st.gates.length).map fun i => if i == g then true else st.gates.getD i false }
+
 def SSt.isPending (st : SSt) (rid : Nat) : Bool := ((st.res[rid]?).map (·.pending)).getD false
 def SSt.lastOf (st : SSt) (rid : Nat) : Int := (((st.res[rid]?).bind (·.last))).getD 0
 
@@ -122,6 +133,7 @@ def pendingIn (st : SSt) : SV → Int → Bool
   | .sus _, _ => false
   | .tra _ _, _ => false
   | .aw rid, _ => st.isPending rid
+  | .lw sel, key => !st.gateOpen (gateIx (Reactive.evalPure st.env (sel.valued [] key)))
 
 /-- what the DOM shows at an idle point -/
 def renderS (st : SSt) : SV → Int → List Tok
@@ -144,6 +156,22 @@ def renderS (st : SSt) : SV → Int → List Tok
   | .sus kid, key => if pendingIn st kid key then [.text (.lit "wait")] else renderS st kid key
   | .tra i kid, key => if st.phase.getD i 0 == 1 then [.text (.lit "wait")] else renderS st kid key
   | .aw rid, _ => [.text (.int (st.lastOf rid))]
+  | .lw sel, key => [.text (.int (gateIx (Reactive.evalPure st.env (sel.valued [] key)) : Nat))]
+
+/-- some live `lw` leaf (below a boundary or not) selects a gate that is still closed: the DOM is not observed -/
+def lwClosed (st : SSt) : SV → Int → Bool
+  | .elem _ _ kid, key => lwClosed st kid key
+  | .seq a b, key => lwClosed st a key || lwClosed st b key
+  | .either c a b, key =>
+    if Reactive.evalPure st.env (c.valued [] key) != 0 then lwClosed st a 0 else lwClosed st b 0
+  | .show c a b, key =>
+    if Reactive.evalPure st.env (c.valued [] key) != 0 then lwClosed st a 0 else lwClosed st b 0
+  | .forRows sel lists row, key =>
+    (listAt lists (Reactive.evalPure st.env (sel.valued [] key))).any fun (k : Nat) => lwClosed st row (k : Int)
+  | .sus kid, key => lwClosed st kid key
+  | .tra _ kid, key => lwClosed st kid key
+  | .lw sel, key => !st.gateOpen (gateIx (Reactive.evalPure st.env (sel.valued [] key)))
+  | _, _ => false
 
 /-- the `<Transition>`s of a view with the views below them (they sit at fixed places: no branch, no row above) -/
 def transitions : SV → List (Nat × SV)
@@ -194,12 +222,14 @@ def SSt.dom (st : SSt) : List Tok :=
 inductive SOp where
   | set (id : Nat) (v : Int)
   | resolve (rid : Nat)
+  | openGate (g : Nat)
   deriving Repr, Inhabited
 
 /-- an operation, then the executor runs to idle -/
 def SSt.step (st : SSt) : SOp → SSt
   | .set id v => (st.set id v).settle
   | .resolve rid => (st.resolve rid).settle
+  | .openGate g => (st.openGate g).settle
 
 /-- signals and memos, the resources' fetchers, the resources completed before the mount, the view -/
 structure SProg where
@@ -248,6 +278,7 @@ def renderLoaded (st : SSt) : SV → Int → List Tok
   | .sus kid, key => renderLoaded st kid key
   | .tra _ kid, key => renderLoaded st kid key
   | .aw rid, _ => [.text (.int (((st.res[rid]?).map fun r => Reactive.evalPure st.env r.body).getD 0))]
+  | .lw sel, key => [.text (.int (gateIx (Reactive.evalPure st.env (sel.valued [] key)) : Nat))]
 
 
 end Leptos.SView
